@@ -117,6 +117,29 @@ static void case_from_znx64(uint64_t m, int variant /*0 table native,1 table gen
     if (x[i] > lim) x[i] = lim;
     if (x[i] < -lim) x[i] = -lim;
   }
+  // the vector above mixes every value class, so a test on the WHOLE vector ("all high words zero", "all non-negative") never
+  // holds: three cases in four make the vector homogeneous in one class (with the class's extremes present)
+  {
+    const unsigned cls = (unsigned)(rng_u64(r) % 12);
+    const uint64_t special = rng_u64(r) % n;
+    for (uint64_t i = 0; i < n && cls < 9; i++) {
+      const uint64_t w = rng_u64(r);
+      switch (cls) {
+        case 0: x[i] = (int64_t)(w >> 32); break;                                  // all in [0, 2^32)
+        case 1: x[i] = (int64_t)(w >> 32) | (i == special ? (int64_t)1 << 31 : 0); break;
+        case 2: x[i] = (int64_t)(w >> 31) - ((int64_t)1 << 32); break;             // all in [-2^32, 2^32)
+        case 3: x[i] = (int64_t)(w >> 33); break;                                  // all in [0, 2^31)
+        case 4: x[i] = (int64_t)(w >> 32) - ((int64_t)1 << 31); break;             // all int32
+        case 5: x[i] = (int64_t)((w >> 46) << 32); break;                          // all multiples of 2^32
+        case 6: x[i] = (int64_t)(w >> 48); break;                                  // all below 2^16
+        case 7: x[i] = i == special ? lim : (int64_t)(w >> 40); break;             // small, one maximal value
+        default: x[i] = i + 4 >= n ? (i & 1 ? -lim : lim) : (int64_t)(w >> 36) - ((int64_t)1 << 27);  // small, the last four maximal
+      }
+    }
+    if (cls == 0 || cls == 1) x[special] = (int64_t)0xFFFFFFFFu;
+    if (cls == 4) x[special] = -((int64_t)1 << 31);
+    cntf("input_class:%u", 1, cls < 9 ? cls : 9);
+  }
   set_dispatch(variant != 1);
   REIM_FROM_ZNX64_PRECOMP* p = new_reim_from_znx64_precomp((uint32_t)m, 50);
   set_dispatch(1);
@@ -160,6 +183,24 @@ static void case_to_znx64_b(uint64_t m, int variant /*0 native table,1 generic t
   gb_prefill(&go, (int)rep, 2);
   double* ratio = malloc(n * 8);
   gen_ratios(r, n, maxe, ratio, rep);
+  // (same remark as for the int64 -> double cases: half of the cases are homogeneous in one magnitude class, optionally with a
+  // single value of the top class at a random position or among the last four)
+  {
+    const unsigned cls = (unsigned)(rng_u64(r) % 8);
+    const uint64_t special = rng_u64(r) % n;
+    if (cls < 4) {
+      const int smalle = cls == 0 ? 10 : (cls == 1 ? 31 : (maxe > 50 ? 50 : maxe - 2));
+      double* small = malloc(n * 8);
+      gen_ratios(r, n, smalle < 2 ? 2 : smalle, small, rep + 1);
+      for (uint64_t i = 0; i < n; i++) {
+        const int keep_big = (cls == 2 && i == special) || (cls == 3 && i + 4 >= n && ((i ^ special) & 1));
+        if (!keep_big) ratio[i] = small[i];
+        else if (fabs(ratio[i]) < ldexp(1.0, maxe - 1)) ratio[i] = (ratio[i] < 0 ? -1 : 1) * nextafter(ldexp(1.0, maxe), 0);
+      }
+      free(small);
+    }
+    cntf("input_class:%u", 1, cls < 4 ? cls : 4);
+  }
   for (uint64_t i = 0; i < n; i++) x[i] = ratio[i] * d;  // exact: power-of-two scaling, no under/overflow here
   double* x0 = malloc(n * 8 + 8);
   memcpy(x0, x, n * 8);
